@@ -1,50 +1,36 @@
 (* C04 - finite facts about the parenthesisation tables: the rule scanned from the code (Gen/Priority.v, regenerated on every
-   run) covers the grammar's rule (Model/C04Expr.v) on every triple outside the known list (Model/C04Known.v), and that
-   list is exact.  All by vm_compute over the explicit enumerations, lifted with forallb_forall. *)
+   run) covers the grammar's rule (Model/C04Expr.v) on every (parent, position, child) triple, and never parenthesises an item
+   where one may stand.  By vm_compute over the explicit enumerations, lifted with forallb_forall. *)
 From Coq Require Import List Bool Arith Lia.
 Import ListNotations.
-Require Import PonyV.Model.C04Expr PonyV.Model.C04Known PonyV.Gen.Priority PonyV.Proofs.C04Kinds.
+Require Import PonyV.Model.C04Expr PonyV.Gen.Priority PonyV.Proofs.C04Kinds.
 
-(* the code's rule covers the grammar's rule outside the known list *)
-Lemma table_except_known : forall p i c, ref_needs p i c = true -> known_bad p i c = false -> pony_needs p i c = true.
+(* wherever Python's grammar requires parentheses around a child, the code's rule produces them *)
+Lemma table_covers : forall p i c, ref_needs p i c = true -> pony_needs p i c = true.
 Proof.
-  intros p i c Hr Hk.
-  assert (T : table_ok (fun p i c => implb (ref_needs p i c && negb (known_bad p i c)) (pony_needs p i c)) = true) by (vm_compute; reflexivity).
-  pose proof (table_ok_spec _ T p i c (ref_needs_pos _ _ _ Hr)) as H. cbv beta in H.
-  rewrite Hr, Hk in H. simpl in H. exact H.
+  intros p i c Hr.
+  assert (T : table_ok (fun p i c => implb (ref_needs p i c) (pony_needs p i c)) = true) by (vm_compute; reflexivity).
+  pose proof (table_ok_spec _ T p i c (ref_needs_pos _ _ _ Hr)) as H. cbv beta in H. rewrite Hr in H. exact H.
 Qed.
 
-Lemma triple_eqb_eq : forall a b, triple_eqb a b = true -> a = b.
+(* the code never parenthesises an item (starred argument, keyword, slice, replacement field) in a position where one may stand:
+   a parenthesised `*a` would not be Python *)
+Lemma items_never_wrapped : forall p i c, allowed p i c = true -> expr_kindb c = false -> pony_needs p i c = false.
 Proof.
-  intros [[p1 i1] c1] [[p2 i2] c2] H. unfold triple_eqb in H.
-  apply andb_prop in H. destruct H as [H H3]. apply andb_prop in H. destruct H as [H1 H2].
-  apply kind_eqb_eq in H1. apply kind_eqb_eq in H3. apply Nat.eqb_eq in H2. subst. reflexivity.
+  intros p i c Ha H.
+  assert (T : table_ok (fun p i c => implb (allowed p i c && negb (expr_kindb c)) (negb (pony_needs p i c))) = true) by (vm_compute; reflexivity).
+  pose proof (table_ok_spec _ T p i c (allowed_pos _ _ _ Ha)) as H0. cbv beta in H0.
+  rewrite Ha, H in H0. simpl in H0. apply negb_true_iff. exact H0.
 Qed.
 
-(* every listed triple is a real gap: the grammar requires parentheses, the code does not produce them *)
-Lemma known_exact : forall p i c, known_bad p i c = true -> ref_needs p i c = true /\ pony_needs p i c = false.
-Proof.
-  intros p i c H. unfold known_bad in H. apply existsb_exists in H. destruct H as [t [Hin Ht]].
-  apply triple_eqb_eq in Ht. subst t.
-  assert (T : forallb (fun t => let '(p, i, c) := t in ref_needs p i c && negb (pony_needs p i c)) known_bad_list = true) by (vm_compute; reflexivity).
-  rewrite forallb_forall in T. specialize (T _ Hin). cbv beta iota in T.
-  apply andb_prop in T. destruct T as [T1 T2]. apply negb_true_iff in T2. split; assumption.
-Qed.
-
-(* the code never parenthesises an item (starred argument, keyword, slice, replacement field): a parenthesised `*a` would not be Python *)
-Lemma items_never_wrapped : forall p i c, expr_kindb c = false -> pony_needs p i c = false.
-Proof.
-  intros p i c H.
-  assert (E : pony_needs p i c = pony_needs p 0 c) by reflexivity. rewrite E.
-  assert (T : table_ok (fun p _ c => expr_kindb c || negb (pony_needs p 0 c)) = true) by (vm_compute; reflexivity).
-  pose proof (table_ok_spec _ T p 0 c) as H0. cbv beta in H0.
-  rewrite H in H0. simpl in H0. apply negb_true_iff. apply H0. simpl. auto.
-Qed.
-
-(* nothing is vacuous: some triples need parentheses and get them, some are gaps *)
+(* nothing is vacuous: triples that need parentheses (and get them), triples that do not *)
 Example table_nonvacuous :
-  ref_needs KSub 1 KAdd = true /\ pony_needs KSub 1 KAdd = true /\ known_bad KSub 1 KAdd = false /\
-  ref_needs KPow 0 KUSub = true /\ pony_needs KPow 0 KUSub = true /\
-  ref_needs KAttribute 0 KAdd = true /\ pony_needs KAttribute 0 KAdd = false /\ known_bad KAttribute 0 KAdd = true /\
-  length known_bad_list = 139.
+  ref_needs KSub 1 KAdd = true /\ pony_needs KSub 1 KAdd = true /\
+  ref_needs KPow 0 KPow = true /\ pony_needs KPow 0 KPow = true /\
+  ref_needs KPow 0 KUSub = true /\ ref_needs KPow 0 KNegConst = true /\
+  ref_needs KAttribute 0 KAdd = true /\ pony_needs KAttribute 0 KAdd = true /\
+  ref_needs KAdd 1 KIfExp = true /\ ref_needs KCall 0 KLambda = true /\ ref_needs KStarElt 0 KOr = true /\
+  ref_needs KAdd 0 KMult = false /\ ref_needs KCall 1 KLambda = false /\
+  length (filter (fun t => let '(p, i, c) := t in ref_needs p i c)
+            (flat_map (fun p => flat_map (fun i => map (fun c => (p, i, c)) all_kinds) all_pos) all_kinds)) = 436.
 Proof. vm_compute. repeat split; reflexivity. Qed.
